@@ -420,8 +420,10 @@ pub fn grid07(m: &mut M, r: &mut Rng, slice: u64, stride: u64) {
                             continue;
                         }
                         m.call("base", "no_overlap", "fn", None, &[A::F(a), A::F(bb)]);
-                        if (mi + sa as usize) % 3 == 0 {
-                            let sp = if sb > 0.0 { "tuple" } else { "array" };
+                        // (every pair goes through the checked constructor: a modular sub-sampling here once left the
+                        // pair (-0.0, +0.0) without a single try_from call)
+                        {
+                            let sp = if (mi + sa as usize + (sb > 0.0) as usize) % 2 == 0 { "tuple" } else { "array" };
                             let ok = matches!(m.call("load", "try_from", sp, Some(0), &[A::F(a), A::F(bb)]), crate::exec::Out::TF(_));
                             if ok {
                                 m.call("base", "into_pair", *r.pick(&["tuple_v", "tuple_r", "array_v", "array_r", "hi_lo"]), None, &[A::R(0)]);
